@@ -43,7 +43,7 @@ def is_safe_line(l: str) -> bool:
 VALUE_ATOMS_SAFE = (list("abcXYZ019 _-.,:;!?()[]{}<>/|@$%^&*+~`") + ["#", "=", " = ", " # ", '"', '""', "\\", "\\\\", "\t",
                                                                      "\r", "é", "Zażółć", "😀", "\u200b", "  ", "t", "r",
                                                                      "u0041", "x41", "中文"])
-VALUE_ATOMS_ADV = ["'", "''", "\n", "n", "\\n", '"""', "\u2028", "\u2029", "it's", "\\'"]
+VALUE_ATOMS_ADV = ["'", "''", "\n", "n", "\\n", '"""', "\u2028", "\u2029", "it's", "\\'", "\n   \n", "\n \nx"]
 
 
 def rand_value(rng: random.Random, adversarial: bool, maxlen: int = 8) -> str:
@@ -51,9 +51,15 @@ def rand_value(rng: random.Random, adversarial: bool, maxlen: int = 8) -> str:
     return "".join(rng.choice(atoms) for _ in range(rng.randint(0, maxlen)))[:24]
 
 
+FORMER_TEXT_CLASSES = ("C02-literal-single-quote", "C02-literal-backslash-n", "C02-block-string", "C02-literal-line-separator")
+
+
 def text_classes(printed: str) -> list[str]:
-    """finding classes of the text path, decided on the printed operation text (what the generator embeds)"""
+    """classes of the text path, decided on the printed operation text (what the generator embeds); the first four
+    are fixed (0f971a2) and kept as labels of the input distribution, the last one is open"""
     out = []
+    if any(l and not l.strip(" ") for l in printed.split("\n")):
+        out.append("C02-block-string-blank-line")
     if "'" in printed:
         out.append("C02-literal-single-quote")
     if "\\n" in printed:
@@ -343,3 +349,145 @@ def oracle(schema, authored_doc, op, query_text, operation_name):
     if diffs.get("mismatch"):
         problems.append({"kind": "ast", "diffs": diffs["mismatch"][:3]})
     return problems
+
+
+# ------------------------------------------------------------------------------------------------ structured stream
+# Hand-shaped inputs the random generator rarely makes: fragment chains of depth 4-6 in every definition order, spreads
+# nested inside fields / inline fragments of fragments, shared tails; mixin fragments with object- and abstract-typed
+# fields in every order and at depth; variables named like the locals of the generated method, on queries, mutations
+# and subscriptions.
+STRUCT_SDL = """interface Node { id: ID! }
+interface Pet implements Node { id: ID! name: String! owner: User }
+type Dog implements Node & Pet { id: ID! name: String! owner: User barks: Boolean }
+type Cat implements Node & Pet { id: ID! name: String! owner: User lives: Int! }
+type Country { code: String! name: String }
+type Address { city: String zip: String! country: Country }
+type User implements Node { id: ID! name: String! address: Address pet: Pet! pets: [Pet!]! friend: User friends: [User] fav: Fav }
+union Fav = Dog | Cat | User
+type Query {
+  user(id: ID, query: String, variables: [String!], data: Int): User
+  node(id: ID!): Node
+  me: User!
+  search(query: String, response: String): [Fav!]!
+}
+type Mutation { rename(id: ID!, query: String, data: String): User }
+type Subscription {
+  userChanged(id: ID, query: String, variables: String): User
+  petSeen(data: String, query: String): Pet
+}
+"""
+LOCALS = ["query", "variables", "response", "data", "_query", "_variables", "_data", "_response", "operation_name",
+          "operationName", "kwargs", "self", "gql", "UNSET", "Query", "result", "url", "headers"]
+ROOTS = {
+    "query": [("user", [("id", "ID"), ("query", "String"), ("variables", "[String!]"), ("data", "Int")], "User"),
+              ("search", [("query", "String"), ("response", "String")], "Fav"),
+              ("me", [], "User")],
+    "mutation": [("rename", [("id", "ID!"), ("query", "String"), ("data", "String")], "User")],
+    "subscription": [("userChanged", [("id", "ID"), ("query", "String"), ("variables", "String")], "User"),
+                     ("petSeen", [("data", "String"), ("query", "String")], "Pet")],
+}
+MIXIN_PARTS = ["name", "address { city }", "pet { name ... on Dog { barks } }", "fav { ... on Cat { lives } ... on User { name } }",
+               "friend { address { zip country { code } } pet { name } }", "pets { id ... on Cat { lives } }",
+               "address { country { name } }", "friend { fav { ... on Dog { barks } } }"]
+
+
+def structured(seed: int) -> scenario.Scenario | None:
+    rng = random.Random(seed * 9176 + 5)
+    frags = {}   # name -> text, in creation (top-down) order
+
+    def link(nxt, on="User"):
+        """a selection (on User) that reaches fragment `nxt` (defined on User)"""
+        return rng.choice([
+            f"id ...{nxt}",
+            f"name friend {{ ...{nxt} }}",
+            f"... on User {{ ...{nxt} }}",
+            f"pet {{ name ... on Dog {{ owner {{ ...{nxt} }} }} }}",
+            f"friends {{ id friend {{ ...{nxt} }} }}",
+            f"fav {{ ... on User {{ ...{nxt} }} }}",
+        ])
+
+    def chain(prefix, depth, tail=None):
+        names = [f"{prefix}{i}" for i in range(1, depth + 1)]
+        for i, n in enumerate(names):
+            if i + 1 < depth:
+                body = link(names[i + 1])
+            elif tail:
+                body = f"id ...{tail}"
+            else:
+                body = rng.choice(["id name", "name address { city }", "id pet { name }"])
+            frags[n] = f"fragment {n} on User {{ {body} }}"
+        return names[0]
+
+    heads = [chain("Ca", rng.randint(4, 6))]
+    if rng.random() < 0.6:
+        frags["Tail"] = "fragment Tail on User { name address { zip } }"
+        heads.append(chain("Cb", rng.randint(2, 4), tail="Tail"))
+        heads.append(chain("Cc", rng.randint(2, 3), tail="Tail"))
+    # mixin fragments: object and abstract fields in a random order
+    for j in range(rng.randint(1, 3)):
+        parts = rng.sample(MIXIN_PARTS, rng.randint(2, 4))
+        seen, keep = set(), []
+        for p in parts:                      # one selection per response key (keeps the operation mergeable)
+            k = p.split()[0]
+            if k not in seen:
+                seen.add(k)
+                keep.append(p)
+        frags[f"Mix{j}"] = f"fragment Mix{j} on User {{ {' '.join(keep)} }}"
+        heads.append(f"Mix{j}")
+    async_client = rng.random() < 0.6
+    kinds = ["query", "query", "mutation"] + (["subscription", "subscription"] if async_client else [])
+    ops = []
+    for i in range(rng.randint(3, 5)):
+        kind = rng.choice(kinds)
+        fname, fargs, ftype = rng.choice(ROOTS[kind])
+        used, vdefs, args = set(), [], []
+        for an, at in fargs:
+            if at.endswith("!") or rng.random() < 0.7:
+                pool = [x for x in LOCALS if x not in used]
+                hot = [x for x in ("query", "variables", "data", "response") if x not in used]
+                vn = rng.choice(hot) if hot and rng.random() < 0.5 else rng.choice(pool)
+                used.add(vn)
+                vdefs.append(f"${vn}: {at}")
+                args.append(f"{an}: ${vn}")
+        head = rng.choice(heads)
+        if ftype == "User":
+            sel = rng.choice([f"...{head}", f"id ...{head}", f"friend {{ ...{head} }}", f"name friend {{ friend {{ ...{head} }} }}"])
+        elif ftype == "Fav":
+            sel = f"__typename ... on User {{ ...{head} }} ... on Dog {{ owner {{ ...{head} }} }}"
+        else:
+            sel = f"name owner {{ ...{head} }}"
+        vtxt = f"({', '.join(vdefs)})" if vdefs else ""
+        atxt = f"({', '.join(args)})" if args else ""
+        ops.append(f"{kind} {rng.choice(['Get', 'watch', 'Do'])}Op{i}{vtxt} {{ {fname}{atxt} {{ {sel} }} }}")
+    order = rng.choice(["top-down", "leaf-first", "shuffled"])
+    ftexts = list(frags.values())
+    if order == "leaf-first":
+        ftexts.reverse()
+    elif order == "shuffled":
+        rng.shuffle(ftexts)
+    defs = rng.choice([ops + ftexts, ftexts + ops])
+    queries = "\n\n".join(defs) + "\n"
+    try:
+        errs = validate(build_schema(STRUCT_SDL), parse(queries), [r for r in specified_rules if r is not NoUnusedFragmentsRule])
+    except Exception:
+        return None
+    if errs:
+        return None
+    return scenario.Scenario(seed=seed, sdl=STRUCT_SDL, queries=queries,
+                             config={"async_client": async_client, "convert_to_snake_case": rng.random() < 0.6},
+                             features=("c02", "structured", order), notes={"order": order})
+
+
+def corpus_c01():
+    """the hand-written regression scenarios of C01/C05 (corpus/C01/*.json)"""
+    import glob
+    import json
+    import os
+
+    root = os.path.join(os.environ.get("VERIF_ROOT", "/verif"), "corpus", "C01")
+    out = []
+    for i, p in enumerate(sorted(glob.glob(os.path.join(root, "*.json")))):
+        d = json.load(open(p))
+        out.append(scenario.Scenario(seed=900000 + i, sdl=d["sdl"], queries=d["queries"], config=dict(d.get("config") or {}),
+                                     features=("corpus", d.get("name", os.path.basename(p)))))
+    return out
